@@ -64,7 +64,7 @@ def ensure():
         libs['app_nodeps'] = os.path.join(OUT, 'app_nodeps.so')      # an "application" with no undefined symbol at all
         if os.path.exists(stamp) and open(stamp).read() == want and all(os.path.exists(p) for p in libs.values()) \
                 and all(os.path.exists(os.path.join(libs['ktree_v%d' % v], 'vmlinux')) for v in (0, 1)):
-            return libs
+            return _ensure_split(libs, want)
         for fam, (src, lang, versions, extra) in FAMILIES.items():
             cc = 'gcc' if lang == 'c' else 'g++'
             for v in versions:
@@ -95,10 +95,47 @@ def ensure():
         _sh(['gcc', '-g', '-O0', os.path.join(SRC, 'app.c'), '-o', libs['app'], '-L' + OUT, '-l:libshapes_v0.so'])
         _sh(['gcc', '-g', '-O0', '-fPIC', '-shared', '-nostdlib', os.path.join(SRC, 'app_nodeps.c'), '-o', libs['app_nodeps']])
         open(stamp, 'w').write(want)
-        return libs
+        return _ensure_split(libs, want)
     finally:
         fcntl.flock(lock, fcntl.LOCK_UN)
         lock.close()
+
+
+def split_names():
+    return ['%s_v%d' % (fam, v) for fam, (src, lang, versions, extra) in FAMILIES.items() for v in versions] + ['tool_v0', 'tool_v1', 'tool_v0_exec', 'tool_v1_exec']
+
+
+def _ensure_split(libs, want):
+    """Split debug info, the way distributions ship it: <name>_strip is the binary without its .debug* sections (with a
+    .gnu_debuglink), <name>_dbgroot a directory laid out as a debug-info package: usr/lib/debug/<name>.debug plus the
+    usr/lib/debug/.build-id/xx/yyyy.debug link to it.  Called with the pool lock held."""
+    top = os.path.join(OUT, 'split')
+    stamp = os.path.join(top, 'stamp')
+    names = split_names()
+    for n in names:
+        libs[n + '_strip'] = os.path.join(top, n, 'bin')
+        libs[n + '_dbgroot'] = os.path.join(top, n, 'debug')
+    if os.path.exists(stamp) and open(stamp).read() == want + ' split-1' and all(os.path.exists(libs[n + '_strip']) for n in names):
+        return libs
+    import shutil
+    shutil.rmtree(top, ignore_errors=True)
+    for n in names:
+        dbgdir = os.path.join(libs[n + '_dbgroot'], 'usr', 'lib', 'debug')
+        os.makedirs(dbgdir)
+        dbg = os.path.join(dbgdir, n + '.debug')
+        _sh(['objcopy', '--only-keep-debug', libs[n], dbg])
+        p = subprocess.run(['objcopy', '--strip-debug', '--add-gnu-debuglink=' + n + '.debug', libs[n], libs[n + '_strip']], cwd=dbgdir,
+                           stdout=subprocess.PIPE, stderr=subprocess.STDOUT, universal_newlines=True)
+        if p.returncode != 0:
+            raise C.InfraError('pool build failed: objcopy --strip-debug %s\n%s' % (n, p.stdout[-2000:]))
+        note = subprocess.run(['readelf', '-n', libs[n + '_strip']], stdout=subprocess.PIPE, universal_newlines=True).stdout
+        ids = [l.split()[-1] for l in note.splitlines() if 'Build ID:' in l]
+        if not ids:
+            raise C.InfraError('pool build failed: %s has no build id' % n)
+        os.makedirs(os.path.join(dbgdir, '.build-id', ids[0][:2]))
+        os.symlink('../../' + n + '.debug', os.path.join(dbgdir, '.build-id', ids[0][:2], ids[0][2:] + '.debug'))
+    open(stamp, 'w').write(want + ' split-1')
+    return libs
 
 
 def fixtures(kind):
